@@ -710,6 +710,16 @@ def _schedule_rewrites(
             # In order to not replace anything, we need to make sure the range is empty.
             before = core.Range(before.start, before.start)
 
+            # A statement that is to go after a block has the column of the block, and the line
+            # after the block may be indented less than that. The position is then inside the code
+            # of that line, and the statement goes above the line instead, on lines of its own.
+            line_start = max(source.rfind("\n", 0, before.start), source.rfind("\r", 0, before.start)) + 1
+            if isinstance(after, ast.stmt) and source[line_start : before.start].strip():
+                after = textwrap.indent(
+                    core.unparse(after).rstrip() + "\n", " " * getattr(after, "col_offset", 0)
+                )
+                before = core.Range(line_start, line_start)
+
         if after is None:
             after = ""
         return (before, after, transaction)
